@@ -1,3 +1,5 @@
+//go:build verif
+
 // C02: routes run in order and only when matched; otherwise the fallback runs once.
 // Sequential exhaustive exploration of the real RouteList.Compile state machine.
 package main
